@@ -76,7 +76,10 @@ def rule_execute_string(ctx):
                 if mode is None:
                     # the script reaches the statement splitter as given: only the parser knows where literals and comments end
                     parg, pread = getattr(h, "parse_arg", (None, None))
-                    okp = isinstance(parg, Sym) and parg.tag == "SQL_TEXT" and isinstance(pread, Const) and pread.v == "snowflake"
+                    base = parg
+                    while isinstance(base, Sym) and base.origin and base.origin[0] in ("strip", "lstrip", "rstrip") and len(base.origin) == 2:
+                        base = base.origin[1]  # trimming surrounding whitespace changes no statement
+                    okp = isinstance(base, Sym) and base.tag == "SQL_TEXT" and isinstance(pread, Const) and pread.v == "snowflake"
                     ctx.ob("C16.a", f"the script text reaches the Snowflake parser unmodified (remove_comments={remove_comments})", okp,
                            "fakesnow/conn.py", "" if okp else f"{tagof(parg)[:70]} read={tagof(pread)}")
                     if not okp:
